@@ -222,7 +222,7 @@ func c07Text(src *choice.Src) string {
 	return s
 }
 
-var c07TransitKinds = []string{"none", "flip-text-byte", "flip-sig-byte", "replace-text-char", "drop-sig-line", "dup-sig-line", "swap-sig-lines", "append-unknown-sig", "append-garbage-sig-of-known-key", "many-sig-lines", "insert-control-char", "insert-bad-utf8", "truncate", "rename-signer", "remove-separator", "insert-blank-line-in-sigs", "append-text-line", "same-length-text-edit"}
+var c07TransitKinds = []string{"none", "flip-text-byte", "flip-sig-byte", "replace-text-char", "drop-sig-line", "dup-sig-line", "swap-sig-lines", "append-unknown-sig", "append-garbage-sig-of-known-key", "many-sig-lines", "insert-control-char", "insert-bad-utf8", "truncate", "rename-signer", "remove-separator", "insert-blank-line-in-sigs", "append-text-line", "same-length-text-edit", "text-tail-into-signature"}
 
 func c07Transit(src *choice.Src, msg []byte, kind string) []byte {
 	out := append([]byte(nil), msg...)
@@ -318,6 +318,27 @@ func c07Transit(src *choice.Src, msg []byte, kind string) []byte {
 		}
 	case "append-text-line":
 		out = join(append(append([]byte(nil), text...), []byte("extra line\n")...), lines)
+	case "text-tail-into-signature":
+		// the boundary between text and signature is shifted: the text loses its last lines and a
+		// signature gains them in front, so that text||signature is the same byte string as before
+		var cuts []int
+		for i := 1; i < len(text); i++ {
+			if text[i-1] == '\n' {
+				cuts = append(cuts, i)
+			}
+		}
+		if len(cuts) > 0 && len(lines) > 0 {
+			c := cuts[src.Intn(len(cuts))]
+			i := src.Intn(len(lines))
+			f := strings.Split(strings.TrimSuffix(lines[i], "\n"), " ")
+			if len(f) == 3 && f[0] == "—" {
+				if raw, err := base64.StdEncoding.DecodeString(f[2]); err == nil && len(raw) >= 4 {
+					nraw := append(append(append([]byte(nil), raw[:4]...), text[c:]...), raw[4:]...)
+					lines[i] = f[0] + " " + f[1] + " " + base64.StdEncoding.EncodeToString(nraw) + "\n"
+					out = join(text[:c], lines)
+				}
+			}
+		}
 	}
 	return out
 }
@@ -328,11 +349,20 @@ type fakeSigner struct {
 	hash uint32
 	sig  []byte
 	err  error
+	// shared, if set, is an output buffer this signer shares with other signers of its owner (one
+	// device, one response buffer): every Sign overwrites it and returns a slice of it
+	shared *[]byte
 }
 
-func (s *fakeSigner) Name() string                { return s.name }
-func (s *fakeSigner) KeyHash() uint32             { return s.hash }
-func (s *fakeSigner) Sign([]byte) ([]byte, error) { return s.sig, s.err }
+func (s *fakeSigner) Name() string    { return s.name }
+func (s *fakeSigner) KeyHash() uint32 { return s.hash }
+func (s *fakeSigner) Sign([]byte) ([]byte, error) {
+	if s.shared != nil && s.err == nil {
+		*s.shared = append((*s.shared)[:0], s.sig...)
+		return *s.shared, nil
+	}
+	return s.sig, s.err
+}
 
 type c07SignerSpec struct {
 	key  *ref.Key // real signer
@@ -515,6 +545,13 @@ func c07NewParty(src *choice.Src, res *core.Result, hint []*ref.Key) *c07Party {
 			p.signers = append(p.signers, c07SignerSpec{fake: &fakeSigner{name: "fake.example/v", hash: uint32(src.Intn(3)), sig: src.Bytes(src.Range(1, 70))}})
 		}
 	}
+	if src.Bool(1, 8) {
+		// two keys on one signing device that answers from one buffer
+		buf := make([]byte, 0, 80)
+		for i := 0; i < 2; i++ {
+			p.signers = append(p.signers, c07SignerSpec{fake: &fakeSigner{name: fmt.Sprintf("hsm.example/k%d", i), hash: uint32(40 + i), sig: src.Bytes(64), shared: &buf}})
+		}
+	}
 	return p
 }
 
@@ -672,7 +709,7 @@ func c07Explore(src *choice.Src) *core.Result {
 		rounds := src.Weighted(3, 2)
 		var accepted *note.Note
 		for r := 0; r <= rounds; r++ {
-			kind := c07TransitKinds[src.Weighted(6, 2, 2, 2, 1, 2, 1, 2, 2, 1, 1, 1, 1, 1, 1, 1, 1, 2)]
+			kind := c07TransitKinds[src.Weighted(6, 2, 2, 2, 1, 2, 1, 2, 2, 1, 1, 1, 1, 1, 1, 1, 1, 2, 2)]
 			if r == 0 && src.Bool(1, 2) {
 				kind = "none"
 			}
